@@ -21,6 +21,8 @@ GNext ==
   \/ /\ More /\ \E o \in Pick(Objs), i \in Pick(Slots) : slot[<<o, i>>] # 0 /\ CallOut(o, i) /\ Log([op |-> "callout", o |-> o, i |-> i])
   \/ /\ More /\ \E o \in Pick(Objs), k \in Pick({1, 2}), by \in Pick({"name", "handle"}) : RmCallOut(o, k) /\ Log([op |-> "rmco", o |-> o, by |-> by])
   \/ /\ More /\ \E o \in Pick(Objs), i \in Pick(Slots) : slot[<<o, i>>] # 0 /\ Many(o, i) /\ Log([op |-> "many", o |-> o, i |-> i])
+  \/ /\ More /\ (\A p \in Objs : bulk[p] = <<>>) /\ (\A k \in 1..Len(hist) : hist[k].op # "clones")       \* (once per history: 70000 objects take seconds)
+     /\ \E o \in Pick(Objs) : ManyClones(o) /\ Log([op |-> "clones", o |-> o])
   \/ /\ More /\ \E o \in Pick(Objs) : Unmany(o) /\ Log([op |-> "unmany", o |-> o])
   \/ /\ More /\ \E o \in Pick(Objs), i \in Pick(Slots), f \in Pick({"name", "fp"}) : InputTo(o, i) /\ Log([op |-> "inp", o |-> o, i |-> i, form |-> f])
   \/ /\ More /\ \E r \in Pick({"ok", "err"}) : InputLine /\ Log([op |-> "line", o |-> inp[1], res |-> r])
@@ -30,6 +32,6 @@ GNext ==
   \/ /\ ~More /\ UNCHANGED gvars
 GInit == Init /\ hist = <<>>
 GSpec == GInit /\ [][GNext]_gvars
-Interesting == \E k \in 1..Len(hist) : hist[k].op \in {"copy", "put", "putr", "fp", "callout", "inp", "many"}
+Interesting == \E k \in 1..Len(hist) : hist[k].op \in {"copy", "put", "putr", "fp", "callout", "inp", "many", "clones"}
 Emit == (Len(hist) = MaxLen /\ Interesting) => PrintT(<<"@@B", ToJson(hist)>>)
 =============================================================================
